@@ -420,7 +420,7 @@ def run(ctx: core.Ctx):
         n_dom += dom
         desc = {"program": [step_str(s) for s in m["steps"]], "table": m["table"], "rows": TABLES[m["table"]],
                 "mode": m["mode"], "verdict(t2,impl=model,impl=spec,model=spec,in_domain,raised)": r,
-                "exception": m["exc"], "coq_case": it}
+                "exception": m["exc"], "steps_json": m["steps"], "coq_case": it}
         if raised or not isp:
             ctx.deviation(signature(m["steps"], {"raised": raised, "exc": m["exc"]}),
                           "collect() differs from the sequential PySpark meaning" if not raised else f"raises {m['exc']}",
@@ -429,7 +429,7 @@ def run(ctx: core.Ctx):
             model_fail.append(desc)
         elif not t2 and m["exported"]:
             t2_fail.append(desc)
-        if dom and not ms:
+        if proved and dom and not ms and not any(b["name"] == "theorem-vs-evaluation" for b in ctx.brokens):
             ctx.broken("theorem-vs-evaluation", "in-domain case where model and spec evaluate differently: " + it[:400])
         if TABLES[m["table"]] and len(m["steps"]) >= 2:
             n_nontriv += 1
@@ -462,3 +462,23 @@ def run(ctx: core.Ctx):
         "Spec (Chain.spec_step) is my definition of PySpark's meaning, validated against PySpark 3.5.9 recordings (oracle/)",
         "DuckDB keeps the order of an ordered CTE through outer filter/projection/LIMIT (threads=1, small tables)",
     ]
+
+
+def _tup(x):
+    return tuple(_tup(y) for y in x) if isinstance(x, list) else x
+
+
+def replay(ctx: core.Ctx, rp: dict) -> int:
+    """re-run the program of a replay file on /repo's current tree and print what it returns"""
+    r = rp.get("replay") or (rp.get("no_longer_checks") or [{}])[0].get("data", [{}])[0]
+    steps = [_tup(s) for s in r["steps_json"]]
+    from sqlframe.duckdb import DuckDBSession
+    import sqlframe.duckdb.functions as F
+    df = DuckDBSession().createDataFrame([tuple(x) for x in r["rows"]], SCHEMA)
+    for st in steps:
+        df = apply_step(df, st, F)
+    print("program:", [step_str(s) for s in steps])
+    print("sql:", df.sql(optimize=False))
+    print("collect():", df.collect())
+    print("verdict recorded:", r.get("verdict(t2,impl=model,impl=spec,model=spec,in_domain,raised)"))
+    return 0
